@@ -574,7 +574,7 @@ func (e *Env) monitorValues(st *Step, f []string, kind string, ok bool) {
 							num := new(big.Int).Mul(tds, vt.Denom())
 							den := new(big.Int).Mul(vt.Num(), bigP)
 							if !priceInRange(num, den) {
-								cls = "price_out_of_range"
+								cls = "unhealthy_price_out_of_range"
 							}
 						}
 					}
